@@ -507,6 +507,13 @@ func (lb *LoadBalancer) RemoveBackend(name string) {
 func (lb *LoadBalancer) NextBackend(r *http.Request) *Backend {
 	lb.mutex.RLock()
 	defer lb.mutex.RUnlock()
+
+	// Strategies filter on the raw health flag, so re-admit backends whose unhealthy
+	// window has expired before asking for a pick (IsBackendHealthy does it lazily)
+	for _, backend := range lb.strategy.GetBackends() {
+		lb.IsBackendHealthy(backend)
+	}
+
 	return lb.strategy.NextBackend(r)
 }
 
